@@ -1,7 +1,8 @@
 (* C07 - the source map relates every Go expression byte to the same byte in generated code.
    This file holds property statements only; each is closed by [exact].
    Models: model/SourceMap.v (SourceMap.Add, the two tables), model/Gen.v (RangeWriter, generator),
-   model/ProxyCache.v (the language-server proxy's DidOpen / DidChange / DidClose: held text, cached map, Go text at gopls).
+   model/ProxyCache.v (the language-server proxy's DidOpen / DidChange / DidClose: held text, cached map, Go text at gopls),
+   model/GenOpts.v (the GenerateOpt values given to Generate and the comment lines they put in front of the file).
    Specification: spec/SmSpec.v (pos_of, sget/target_from_source/source_from_target, rune_starts, add_faithful, range_ok),
    spec/ProxySpec.v (held_map_current, held_map_matches_gopls).
    Vocabulary (proofs/SourceMapProof.v): [rune_starts (S |l|) l 0] = the rune starts of a line and the offset one past
@@ -15,6 +16,7 @@ From V Require Import lib.Bytes lib.Sexp model.Ast model.Gen model.SourceMap spe
 From Coq Require Import Permutation.
 From V Require Import proofs.SourceMapProof proofs.RangeWriterProof proofs.SmFaithfulProof proofs.GenAddsProof proofs.GenExprsProof.
 From V Require Import model.ProxyCache spec.ProxySpec proofs.ProxyCacheProof.
+From V Require Import model.GenOpts proofs.GenOptsProof.
 Local Open Scope nat_scope.
 
 (* ---------------------------------------------------------------------------------------------------- 1 *)
@@ -336,3 +338,98 @@ Example C07_ex_proxy_real :
   let s := run sk_parse sk_evs in
   lookup sk_u (cache s) = Some (snd (generate_tables [] sk_f2)) /\ lookup sk_u (gopls s) = Some (fst (generate_tables [] sk_f2)).
 Proof. exact real_variant_current. Qed.
+
+(* ---------------------------------------------------------------------------------------------------- 7 *)
+(* The generator OPTIONS.  model/GenOpts.v: Generate(template, w, opts...) for any list [os] of WithVersion(v),
+   WithTimestamp(d) (d = the formatted date the option stores), WithFileName(n), WithSkipCodeGeneratedComment() - any
+   values (any bytes: line feeds, multi-byte text), any order, repeated or absent.  The options decide the first lines
+   of the file ("//" or the code-generated comment, "// templ: version: v", "// templ: generated: d" - the last by
+   writeUnrecorded) and the file name spelled in the error handlers; everything after is Gen.gen_all's.
+   Without options, or with a file name only, the model is the generator model of sections 5-6. *)
+Theorem C07_options_none_is_the_generator :
+  (forall f, generate_all_o [] f = generate_all [] f /\ gen_state_o [] f = gen_state [] f) /\
+  (forall n f, generate_all_o [OFileName n] f = generate_all (opt_file_name n) f /\ gen_state_o [OFileName n] f = gen_state (opt_file_name n) f) /\
+  (forall fn f g, gen_all_o {| o_version := []; o_fname := fn; o_skip := false; o_date := [] |} f g = gen_all f g).
+Proof.
+  exact (conj (fun f => conj (generate_all_o_nil f) (gen_state_o_nil f))
+        (conj (fun n f => conj (generate_all_o_file_name n f) (gen_state_o_file_name n f)) gen_all_o_default)).
+Qed.
+Print Assumptions C07_options_none_is_the_generator.
+
+(* The lines the options add go through the RangeWriter: after them, for EVERY option record, the writer invariant
+   holds, Current is the specification's position of the end of what has been written, and no literal is pending. *)
+Theorem C07_option_lines_move_the_writer :
+  forall (o : gopts) (rest : bytes),
+    let w1 := w (prologue o (g_init_o o)) in
+    wf w1 /\ cur w1 = pos_of (outtext w1 ++ rest) (N.of_nat (length (outtext w1))) /\ inlit w1 = false.
+Proof.
+  exact (fun o rest => conj (proj1 (good_prologue o (g_init_o o) (Inv_init_o o)))
+                      (conj (prologue_position o rest) (inlit_after_prologue o (g_init_o o)))).
+Qed.
+Print Assumptions C07_option_lines_move_the_writer.
+
+(* Theorem 5 for every list of options: every (expression, position) handed to Add is such that the final code holds
+   the expression's bytes there and the position is pos_of code of its own index. *)
+Theorem C07_generated_file_faithful_under_options :
+  forall (os : list gopt) (f : file) (e : expr) (tp : pos),
+    In (e, tp) (adds (gen_state_o os f)) ->
+    let code := fst (fst (generate_all_o os f)) in
+    tp = pos_of code (fst (fst tp)) /\ has_prefix (e_val e) (skipn (N.to_nat (fst (fst tp))) code) = true.
+Proof. exact generated_file_faithful_o. Qed.
+Print Assumptions C07_generated_file_faithful_under_options.
+
+Theorem C07_generated_file_add_faithful_under_options :
+  forall (os : list gopt) (f : file) (src : bytes),
+    let g := gen_state_o os f in
+    let code := fst (fst (generate_all_o os f)) in
+    let m := sourcemap (rev (adds g)) in
+    pairwise_disj (rev (adds g)) ->
+    forall e tp, In (e, tp) (adds g) -> Forall aligned (split_on x0a (e_val e) []) ->
+    add_faithful src code (fst m) (snd m) e = true.
+Proof. exact generated_file_add_faithful_o. Qed.
+Print Assumptions C07_generated_file_add_faithful_under_options.
+
+(* ... and coverage: whatever the options, the expressions Added are exactly the AST's. *)
+Theorem C07_all_expressions_added_under_options :
+  forall (os : list gopt) (f : file), file_ok f ->
+    Permutation (filter (fun e => negb (forallb is_blank (e_val e))) (map fst (adds (gen_state_o os f)))) (file_exprs f).
+Proof. exact all_expressions_added_o. Qed.
+Print Assumptions C07_all_expressions_added_under_options.
+
+(* What a list of options means: the last option of a kind wins; an absolute file name keeps its last element. *)
+Theorem C07_options_last_wins :
+  forall os : list gopt,
+    (forall v, o_version (apply_opts (os ++ [OVersion v])) = v) /\
+    (forall d, o_date (apply_opts (os ++ [OTimestamp d])) = d) /\
+    (forall n, o_fname (apply_opts (os ++ [OFileName n])) = opt_file_name n) /\
+    o_skip (apply_opts (os ++ [OSkipComment])) = true.
+Proof. exact (fun os => conj (opts_last_version os) (conj (opts_last_timestamp os) (conj (opts_last_file_name os) (opts_skip os)))). Qed.
+Print Assumptions C07_options_last_wins.
+
+(* non-vacuity: absolute file name, version and timestamp; the package clause is Added at (107, 4, 0), after the 107
+   bytes / 4 lines of the three comment lines *)
+Example C07_ex_options :
+  let os := [OFileName (bs "/a/b.templ"); OVersion (bs "v1"); OTimestamp ex_date] in
+  apply_opts os = {| o_version := bs "v1"; o_fname := bs "b.templ"; o_skip := false; o_date := ex_date |} /\
+  firstn 107 (fst (fst (generate_all_o os ex_file))) =
+    bs "// Code generated by templ - DO NOT EDIT." ++ [x0a; x0a] ++ bs "// templ: version: v1" ++ [x0a] ++
+    bs "// templ: generated: 2026-01-02T03:04:05Z" ++ [x0a] /\
+  In (f_pkg ex_file, (107, 4, 0)%N) (adds (gen_state_o os ex_file)) /\
+  pairwise_disj (rev (adds (gen_state_o os ex_file))).
+Proof. exact ex_options. Qed.
+
+(* Refuted variant (model/GenOpts.v prologue_bypass): the generated-date line handed to the underlying io.Writer instead
+   of the RangeWriter.  The bytes are in the file but Current did not move: the writer invariant is lost, and the
+   template signature T() is Added at (228, 9, 5), which is not a position of the code (index 228 is line 8, column
+   15) and does not hold "T()".  Without WithTimestamp the variant and the generator coincide. *)
+Lemma C07_date_line_bypassing_the_writer_refuted :
+  let g := gen_state_bypass [OTimestamp ex_date] ex_file in
+  let code := outtext (w g) in
+  ~ wf (w g) /\
+  exists e tp, In (e, tp) (adds g) /\ tp <> pos_of code (fst (fst tp)) /\
+               has_prefix (e_val e) (skipn (N.to_nat (fst (fst tp))) code) = false.
+Proof. exact bypass_refuted. Qed.
+Lemma C07_bypass_needs_timestamp :
+  gen_state_bypass [OVersion (bs "v1"); OSkipComment; OFileName (bs "/a/b.templ")] ex_file
+  = gen_state_o [OVersion (bs "v1"); OSkipComment; OFileName (bs "/a/b.templ")] ex_file.
+Proof. exact bypass_needs_timestamp. Qed.
